@@ -225,8 +225,8 @@ impl EditProp {
         for i in 0..inits.len() {
             shards.push((i, false, false));
             shards.push((i, false, true));
+            shards.push((i, true, false));
             if self.0 == Which::C04 {
-                shards.push((i, true, false));
                 shards.push((i, true, true));
             }
         }
